@@ -177,8 +177,8 @@ class World:
 
     # ---- logical deadlock detector (called under self.lock at every state change)
     def _detect(self):
-        if self.deadlock is not None:
-            return
+        if self.deadlock is not None or self.abort.is_set() or self.errors:
+            return  # a rank that died for another reason is the primary event; its peers waiting for it are a consequence
         st = self.state
         if any(s == "running" for s in st.values()):
             return
